@@ -1,6 +1,710 @@
-//! C01 — stub (monitor not built yet).
-use crate::core::Ctx;
+//! C01 — certificate validation: only correctly issued certificates are
+//! accepted and the validated resources never grow.
+//!
+//! Workload: chains TA -> CA^k -> {CA, EE, router} built with the library's
+//! TbsCert under the PoolSigner, encoded and re-decoded (the path a relying
+//! party takes), plus single-point tampers of valid (cert, issuer, time)
+//! triples. Oracle: the conjunction in the statement evaluated from the
+//! parameters the harness chose, and an interval-set model of the effective
+//! resources.
+
+use crate::c03_gen::{sequence, Flavour};
+use crate::core::{hex, Ctx, Rng, Stage, Tier};
+use crate::der;
+use crate::keys::PoolSigner;
+use crate::model::IntervalSet;
+use rpki::crypto::keys::PublicKey;
+use rpki::repository::cert::{Cert, ExtendedKeyUsage, KeyUsage, Overclaim, ResourceCert, TbsCert};
+use rpki::repository::resources::{
+    Addr, AsBlock, AsBlocks, AsResources, Asn, IpBlock, IpBlocks, IpResources,
+};
+use rpki::repository::tal::TalInfo;
+use rpki::repository::x509::{Name, Time, Validity};
+use rpki::uri;
+use serde_json::{json, Value};
+use std::str::FromStr;
+use std::sync::Arc;
+
+const FLS: [Flavour; 3] = [Flavour::As, Flavour::V4, Flavour::V6];
+
+pub fn time_at(secs: i64) -> Time {
+    Time::new(chrono::DateTime::<chrono::Utc>::from_timestamp(secs, 0).unwrap())
+}
+
+/// How a family's resources are expressed in a certificate.
+#[derive(Clone, Debug, PartialEq)]
+pub enum Claim {
+    Missing,
+    Inherit,
+    Blocks(IntervalSet), // element space
+}
+
+impl Claim {
+    fn tag(&self) -> &'static str {
+        match self {
+            Claim::Missing => "missing",
+            Claim::Inherit => "inherit",
+            Claim::Blocks(_) => "blocks",
+        }
+    }
+}
+
+pub fn as_blocks(m: &IntervalSet) -> AsBlocks {
+    AsBlocks::from_iter(m.iv.iter().map(|(a, b)| {
+        if a == b {
+            AsBlock::Id(Asn::from_u32(*a as u32))
+        } else {
+            AsBlock::from((Asn::from_u32(*a as u32), Asn::from_u32(*b as u32)))
+        }
+    }))
+}
+
+pub fn ip_blocks(fl: Flavour, m: &IntervalSet) -> IpBlocks {
+    IpBlocks::from_iter(m.iv.iter().map(|(a, b)| {
+        let (x, y) = fl.embed(*a, *b);
+        IpBlock::from((Addr::from_bits(x), Addr::from_bits(y)))
+    }))
+}
+
+/// Observed blocks of a validated certificate in element space; Err if an
+/// IPv4 block is not aligned to the /32 convention.
+fn observe(fl: Flavour, rc: &ResourceCert) -> Result<Vec<(u128, u128)>, String> {
+    match fl {
+        Flavour::As => Ok(rc.as_resources().iter().map(|b| (b.min().into_u32() as u128, b.max().into_u32() as u128)).collect()),
+        Flavour::V6 => Ok(rc.v6_resources().iter().map(|b| (b.min().to_bits(), b.max().to_bits())).collect()),
+        Flavour::V4 => {
+            let low = (1u128 << 96) - 1;
+            let mut out = Vec::new();
+            for b in rc.v4_resources().iter() {
+                let (lo, hi) = (b.min().to_bits(), b.max().to_bits());
+                if lo & low != 0 || hi & low != low {
+                    return Err(format!("IPv4 block {:x}-{:x} not aligned", lo, hi));
+                }
+                out.push((lo >> 96, hi >> 96));
+            }
+            Ok(out)
+        }
+    }
+}
+
+fn canonical(blocks: &[(u128, u128)]) -> bool {
+    blocks.iter().all(|(a, b)| a <= b)
+        && blocks.windows(2).all(|w| w[1].0 > w[0].1 && !(w[0].1 != u128::MAX && w[1].0 == w[0].1 + 1))
+}
+
+#[derive(Clone, Copy, Debug, PartialEq)]
+enum Kind {
+    Ta,
+    Ca,
+    Ee,
+    Router,
+}
+
+#[derive(Clone)]
+struct Spec {
+    kind: Kind,
+    key: usize,        // subject key (pool index); router: ignored
+    issuer_key: usize, // signing key
+    serial: u64,
+    not_before: i64,
+    not_after: i64,
+    overclaim: Overclaim,
+    claims: [Claim; 3],
+    aki: AkiChoice,
+    issuer_name: Option<Name>,
+    subject_name: Option<Name>,
+    router_key: Option<PublicKey>,
+}
+
+#[derive(Clone, Debug, PartialEq)]
+enum AkiChoice {
+    Issuer,
+    None,
+    Other(usize),
+    /// the issuer's key identifier with one bit flipped
+    Flip(usize),
+}
+
+struct World<'a> {
+    pool: &'a PoolSigner,
+    tal: Arc<TalInfo>,
+    uri: uri::Rsync,
+    router_keys: Vec<PublicKey>,
+}
+
+fn build(w: &World, s: &Spec) -> Vec<u8> {
+    let subject_key = match (&s.kind, &s.router_key) {
+        (Kind::Router, Some(k)) => k.clone(),
+        _ => w.pool.info(s.key),
+    };
+    let issuer_info = w.pool.info(s.issuer_key);
+    let issuer_name = s.issuer_name.clone().unwrap_or_else(|| issuer_info.to_subject_name());
+    let usage = match s.kind {
+        Kind::Ta | Kind::Ca => KeyUsage::Ca,
+        _ => KeyUsage::Ee,
+    };
+    let mut tbs = TbsCert::new(
+        s.serial.into(),
+        issuer_name,
+        Validity::new(time_at(s.not_before), time_at(s.not_after)),
+        s.subject_name.clone(),
+        subject_key,
+        usage,
+        s.overclaim,
+    );
+    match s.kind {
+        Kind::Ta | Kind::Ca => {
+            tbs.set_basic_ca(Some(true));
+            tbs.set_ca_repository(Some(w.uri.clone()));
+            tbs.set_rpki_manifest(Some(w.uri.clone()));
+        }
+        Kind::Ee => tbs.set_signed_object(Some(w.uri.clone())),
+        Kind::Router => tbs.set_extended_key_usage(Some(ExtendedKeyUsage::create_router())),
+    }
+    if s.kind != Kind::Ta {
+        tbs.set_crl_uri(Some(w.uri.clone()));
+        tbs.set_ca_issuer(Some(w.uri.clone()));
+        match s.aki {
+            AkiChoice::Issuer => tbs.set_authority_key_identifier(Some(issuer_info.key_identifier())),
+            AkiChoice::None => {}
+            AkiChoice::Other(k) => tbs.set_authority_key_identifier(Some(w.pool.info(k).key_identifier())),
+            AkiChoice::Flip(bit) => {
+                let mut raw: [u8; 20] = issuer_info.key_identifier().into();
+                raw[(bit / 8) % 20] ^= 1 << (bit % 8);
+                tbs.set_authority_key_identifier(Some(raw.into()))
+            }
+        }
+    }
+    match &s.claims[0] {
+        Claim::Missing => {}
+        Claim::Inherit => tbs.set_as_resources(AsResources::inherit()),
+        Claim::Blocks(m) => tbs.set_as_resources(AsResources::blocks(as_blocks(m))),
+    }
+    match &s.claims[1] {
+        Claim::Missing => {}
+        Claim::Inherit => tbs.set_v4_resources(IpResources::inherit()),
+        Claim::Blocks(m) => tbs.set_v4_resources(IpResources::blocks(ip_blocks(Flavour::V4, m))),
+    }
+    match &s.claims[2] {
+        Claim::Missing => {}
+        Claim::Inherit => tbs.set_v6_resources(IpResources::inherit()),
+        Claim::Blocks(m) => tbs.set_v6_resources(IpResources::blocks(ip_blocks(Flavour::V6, m))),
+    }
+    let cert = tbs.into_cert(w.pool, &s.issuer_key).expect("sign");
+    cert.to_captured().as_slice().to_vec()
+}
+
+/// Random non-empty subset of an element-space set, with boundary-hugging blocks.
+fn subset_of(rng: &mut Rng, eff: &IntervalSet) -> IntervalSet {
+    if eff.is_empty() {
+        return IntervalSet::empty();
+    }
+    let mut out = Vec::new();
+    for _ in 0..1 + rng.below(3) {
+        let (lo, hi) = *rng.pick(&eff.iv);
+        let span = hi - lo;
+        let pick = |rng: &mut Rng| -> u128 {
+            match rng.below(5) {
+                0 => lo,
+                1 => hi,
+                2 => lo + span.min(1),
+                3 => hi - span.min(1),
+                _ => lo + if span == u128::MAX { rng.next_u128() } else { rng.next_u128() % (span + 1) },
+            }
+        };
+        let a = pick(rng);
+        let b = pick(rng);
+        out.push((a.min(b), a.max(b)));
+    }
+    IntervalSet::from_ranges(&out)
+}
+
+/// A set that is NOT inside `eff`: a subset plus something sticking out by as
+/// little as possible. Returns None if `eff` is everything.
+fn overclaim_of(rng: &mut Rng, fl: Flavour, eff: &IntervalSet) -> Option<(IntervalSet, &'static str)> {
+    let max = fl.max();
+    let all = IntervalSet::from_ranges(&[(0, max)]);
+    let gaps = all.difference(eff);
+    if gaps.is_empty() {
+        return None;
+    }
+    let (glo, ghi) = *rng.pick(&gaps.iv);
+    let base = subset_of(rng, eff);
+    let (extra, how) = match rng.below(4) {
+        // stick out by exactly one element at the upper end of an issuer block
+        0 if glo > 0 => ((glo - 1, glo), "one-past-end"),
+        // stick out by one element below an issuer block
+        1 if ghi < max => ((ghi, ghi + 1), "one-before-start"),
+        // a single element in a gap
+        2 => ((glo, glo), "in-gap"),
+        // straddle: the whole gap plus both neighbours
+        _ => ((glo.saturating_sub(1), ghi.saturating_add(1).min(max)), "straddle"),
+    };
+    let m = base.union(&IntervalSet::from_ranges(&[extra]));
+    if m.is_subset_of(eff) {
+        None
+    } else {
+        Some((m, how))
+    }
+}
+
+fn gen_ta_claims(rng: &mut Rng) -> [Claim; 3] {
+    let mut c: Vec<Claim> = FLS
+        .iter()
+        .map(|fl| match rng.below(6) {
+            0 => Claim::Missing,
+            1 => Claim::Blocks(IntervalSet::from_ranges(&[(0, fl.max())])),
+            _ => {
+                let s = sequence(*fl, rng, 6);
+                let m = IntervalSet::from_ranges(&s.blocks);
+                if m.is_empty() {
+                    Claim::Missing
+                } else {
+                    Claim::Blocks(m)
+                }
+            }
+        })
+        .collect();
+    if c.iter().all(|x| *x == Claim::Missing) {
+        c[0] = Claim::Blocks(IntervalSet::from_ranges(&[(0, 65535)]));
+    }
+    [c[0].clone(), c[1].clone(), c[2].clone()]
+}
+
+/// Child claims relative to the issuer's effective sets. Returns the claims,
+/// whether they overclaim, and a tag per family.
+fn gen_child_claims(rng: &mut Rng, eff: &[IntervalSet; 3], kind: Kind, want_overclaim: bool) -> ([Claim; 3], bool, String) {
+    let mut claims = Vec::new();
+    let mut over = false;
+    let mut tags = Vec::new();
+    let over_family = if want_overclaim { Some(if kind == Kind::Router { 0 } else { rng.usize_below(3) }) } else { None };
+    for (i, fl) in FLS.iter().enumerate() {
+        if kind == Kind::Router && i > 0 {
+            claims.push(Claim::Missing);
+            tags.push("missing".to_string());
+            continue;
+        }
+        if over_family == Some(i) {
+            if let Some((m, how)) = overclaim_of(rng, *fl, &eff[i]) {
+                claims.push(Claim::Blocks(m));
+                tags.push(format!("over:{}", how));
+                over = true;
+                continue;
+            }
+        }
+        let c = match rng.below(if kind == Kind::Router { 1 } else { 5 }) {
+            1 => Claim::Missing,
+            2 if kind != Kind::Router => Claim::Inherit,
+            _ => {
+                let m = if rng.chance(1, 5) { eff[i].clone() } else { subset_of(rng, &eff[i]) };
+                if m.is_empty() {
+                    Claim::Missing
+                } else {
+                    Claim::Blocks(m)
+                }
+            }
+        };
+        tags.push(c.tag().to_string());
+        claims.push(c);
+    }
+    if claims.iter().all(|x| *x == Claim::Missing) {
+        // the profile requires at least one resource extension
+        if kind == Kind::Router {
+            // a router certificate needs explicit AS numbers; if the issuer has none, skip
+            claims[0] = Claim::Missing;
+        } else {
+            claims[0] = Claim::Inherit;
+            tags[0] = "inherit".into();
+        }
+    }
+    ([claims[0].clone(), claims[1].clone(), claims[2].clone()], over, tags.join("/"))
+}
+
+/// Model of the validated resources. None = validation must fail.
+fn expected_eff(issuer: &[IntervalSet; 3], claims: &[Claim; 3], overclaim: Overclaim) -> Option<[IntervalSet; 3]> {
+    let mut out = Vec::new();
+    for i in 0..3 {
+        let e = match &claims[i] {
+            Claim::Missing => IntervalSet::empty(),
+            Claim::Inherit => issuer[i].clone(),
+            Claim::Blocks(b) => match overclaim {
+                Overclaim::Refuse => {
+                    if b.is_subset_of(&issuer[i]) {
+                        b.clone()
+                    } else {
+                        return None;
+                    }
+                }
+                Overclaim::Trim => b.intersection(&issuer[i]),
+            },
+        };
+        out.push(e);
+    }
+    Some([out[0].clone(), out[1].clone(), out[2].clone()])
+}
+
+fn set_json(m: &IntervalSet) -> Value {
+    Value::Array(m.iv.iter().map(|(a, b)| json!([a.to_string(), b.to_string()])).collect())
+}
+
+fn claims_json(c: &[Claim; 3]) -> Value {
+    let f = |c: &Claim| match c {
+        Claim::Missing => json!("missing"),
+        Claim::Inherit => json!("inherit"),
+        Claim::Blocks(m) => set_json(m),
+    };
+    json!({"as": f(&c[0]), "v4": f(&c[1]), "v6": f(&c[2])})
+}
+
+/// Compares the resources of an accepted certificate with the model.
+fn check_resources(ctx: &mut Ctx, what: &str, rc: &ResourceCert, want: &[IntervalSet; 3], issuer: &[IntervalSet; 3], detail: &Value) {
+    for (i, fl) in FLS.iter().enumerate() {
+        ctx.eval();
+        match observe(*fl, rc) {
+            Err(e) => ctx.violation(&format!("C01:{}:resources:{}:malformed", what, fl.name()), &e, detail.clone()),
+            Ok(blocks) => {
+                let got = IntervalSet::from_ranges(&blocks);
+                if !canonical(&blocks) {
+                    ctx.violation(&format!("C01:{}:resources:{}:non-canonical", what, fl.name()), "validated resources are not a canonical block list", json!({"observed": set_json(&IntervalSet { iv: blocks.clone() }), "case": detail}));
+                } else if !got.is_subset_of(&issuer[i]) {
+                    ctx.violation(&format!("C01:{}:resources:{}:grew-beyond-issuer", what, fl.name()), "validated resources are not a subset of the issuer's validated resources", json!({"observed": set_json(&got), "issuer": set_json(&issuer[i]), "case": detail}));
+                } else if got != want[i] {
+                    ctx.violation(&format!("C01:{}:resources:{}:wrong-set", what, fl.name()), "validated resources differ from claimed/trimmed/inherited set", json!({"observed": set_json(&got), "expected": set_json(&want[i]), "case": detail}));
+                }
+            }
+        }
+    }
+}
+
+enum Outcome {
+    Accepted(Option<ResourceCert>),
+    Rejected(String),
+}
+
+/// Decodes `der` and validates it as `kind` under `issuer` at `now`.
+fn validate(ctx: &mut Ctx, w: &World, kind: Kind, der_bytes: &[u8], issuer: Option<&ResourceCert>, strict: bool, now: i64) -> Option<Outcome> {
+    let what = format!("validate-{:?}", kind).to_lowercase();
+    let tal = w.tal.clone();
+    ctx.no_panic(&what, || json!({"cert": hex(der_bytes), "now": now, "strict": strict}), move || {
+        let cert = match Cert::decode(der_bytes) {
+            Ok(c) => c,
+            Err(e) => return Outcome::Rejected(format!("decode: {}", e)),
+        };
+        let now = time_at(now);
+        match kind {
+            Kind::Ta => match cert.validate_ta_at(tal, strict, now) {
+                Ok(rc) => Outcome::Accepted(Some(rc)),
+                Err(e) => Outcome::Rejected(e.to_string()),
+            },
+            Kind::Ca => match cert.validate_ca_at(issuer.unwrap(), strict, now) {
+                Ok(rc) => Outcome::Accepted(Some(rc)),
+                Err(e) => Outcome::Rejected(e.to_string()),
+            },
+            Kind::Ee => match cert.validate_ee_at(issuer.unwrap(), strict, now) {
+                Ok(rc) => Outcome::Accepted(Some(rc)),
+                Err(e) => Outcome::Rejected(e.to_string()),
+            },
+            Kind::Router => match cert.validate_router_at(issuer.unwrap(), strict, now) {
+                Ok(()) => Outcome::Accepted(None),
+                Err(e) => Outcome::Rejected(e.to_string()),
+            },
+        }
+    })
+}
+
+/// Asserts rejection of a tampered variant.
+fn expect_reject(ctx: &mut Ctx, w: &World, variant: &str, kind: Kind, der_bytes: &[u8], issuer: Option<&ResourceCert>, strict: bool, now: i64, detail: &Value) {
+    ctx.eval();
+    ctx.sig(&format!("tamper {} {:?}", variant, kind));
+    ctx.obs(&format!("tamper_{}", variant), 1);
+    if let Some(Outcome::Accepted(_)) = validate(ctx, w, kind, der_bytes, issuer, strict, now) {
+        ctx.violation(
+            &format!("C01:accepts:{}:{}", variant, format!("{:?}", kind).to_lowercase()),
+            &format!("a certificate with a single non-conforming input ({}) was accepted", variant),
+            json!({"variant": variant, "cert": hex(der_bytes), "now": now, "strict": strict, "case": detail}),
+        );
+    }
+}
+
+/// Rebuilds the certificate DER around a modified TBS, signed by `key` with
+/// aws-lc-rs directly.
+fn resign(pool: &PoolSigner, cert_der: &[u8], new_tbs: &[u8], key: usize) -> Option<Vec<u8>> {
+    let root = der::parse(cert_der)?;
+    let alg = root.child(1)?.whole(cert_der).to_vec();
+    let sig = pool.key(key).sign_raw(new_tbs);
+    Some(der::seq(&[new_tbs, &alg, &der::bitstring(0, &sig)]))
+}
+
+struct Node {
+    der_bytes: Vec<u8>,
+    rc: ResourceCert,
+    eff: [IntervalSet; 3],
+    key: usize,
+    depth: usize,
+    nb: i64,
+    na: i64,
+}
+
+fn run_chain(ctx: &mut Ctx, w: &World, rng: &mut Rng, chain_no: u64) {
+    let nkeys = w.pool.len();
+    let base: i64 = 1_700_000_000 + (rng.below(1000) as i64) * 86_400;
+    let strict = rng.bool();
+    // ---- trust anchor
+    let ta_key = rng.usize_below(nkeys);
+    let (nb, na) = (base - 86_400 * 30, base + 86_400 * 365);
+    let ta_claims = gen_ta_claims(rng);
+    let ta = Spec {
+        kind: Kind::Ta, key: ta_key, issuer_key: ta_key, serial: 1 + rng.below(1 << 40), not_before: nb, not_after: na,
+        overclaim: if rng.bool() { Overclaim::Refuse } else { Overclaim::Trim }, claims: ta_claims.clone(), aki: AkiChoice::Issuer,
+        issuer_name: None, subject_name: None, router_key: None,
+    };
+    let ta_der = build(w, &ta);
+    let detail = json!({"chain": chain_no, "ta_claims": claims_json(&ta_claims)});
+    ctx.eval();
+    let ta_eff: [IntervalSet; 3] = {
+        let f = |c: &Claim| match c {
+            Claim::Blocks(m) => m.clone(),
+            _ => IntervalSet::empty(),
+        };
+        [f(&ta_claims[0]), f(&ta_claims[1]), f(&ta_claims[2])]
+    };
+    let ta_rc = match validate(ctx, w, Kind::Ta, &ta_der, None, strict, base) {
+        Some(Outcome::Accepted(Some(rc))) => rc,
+        Some(Outcome::Rejected(e)) => {
+            ctx.violation("C01:rejects-conforming:ta", "a conforming trust anchor certificate was rejected", json!({"error": e, "cert": hex(&ta_der), "case": detail}));
+            return;
+        }
+        _ => return,
+    };
+    ctx.sig(&format!("ta claims {}/{}/{}", ta_claims[0].tag(), ta_claims[1].tag(), ta_claims[2].tag()));
+    let everything = [
+        IntervalSet::from_ranges(&[(0, Flavour::As.max())]),
+        IntervalSet::from_ranges(&[(0, Flavour::V4.max())]),
+        IntervalSet::from_ranges(&[(0, Flavour::V6.max())]),
+    ];
+    check_resources(ctx, "ta", &ta_rc, &ta_eff, &everything, &detail);
+    // TA tampers
+    if rng.chance(1, 3) {
+        // inherited resources in a trust anchor
+        let mut s = ta.clone();
+        s.claims[rng.usize_below(3)] = Claim::Inherit;
+        let d = build(w, &s);
+        expect_reject(ctx, w, "ta-inherit", Kind::Ta, &d, None, strict, base, &detail);
+        // self-signature by another key
+        let mut s = ta.clone();
+        s.issuer_key = (ta_key + 1) % nkeys;
+        s.issuer_name = Some(w.pool.info(ta_key).to_subject_name());
+        let d = build(w, &s);
+        expect_reject(ctx, w, "ta-signed-by-other-key", Kind::Ta, &d, None, strict, base, &detail);
+        // time
+        expect_reject(ctx, w, "time-before", Kind::Ta, &ta_der, None, strict, nb - 1, &detail);
+        expect_reject(ctx, w, "time-after", Kind::Ta, &ta_der, None, strict, na + 1, &detail);
+    }
+    let mut node = Node { der_bytes: ta_der, rc: ta_rc, eff: ta_eff, key: ta_key, depth: 0, nb, na };
+    // ---- descend
+    let depth = rng.below(4) as usize;
+    for level in 0..=depth {
+        let leaf = level == depth;
+        let kind = if !leaf {
+            Kind::Ca
+        } else {
+            match rng.below(4) {
+                0 => Kind::Ca,
+                1 => Kind::Router,
+                _ => Kind::Ee,
+            }
+        };
+        if kind == Kind::Router && node.eff[0].is_empty() {
+            break;
+        }
+        let want_over = rng.chance(1, 3);
+        let (claims, over, tags) = gen_child_claims(rng, &node.eff, kind, want_over);
+        if kind == Kind::Router && !matches!(claims[0], Claim::Blocks(_)) {
+            break;
+        }
+        let overclaim = if rng.bool() { Overclaim::Refuse } else { Overclaim::Trim };
+        let key = (node.key + 1 + rng.usize_below(nkeys - 1)) % nkeys;
+        // window chosen around the evaluation instant, including both ends exactly
+        let (cnb, cna, now) = match rng.below(6) {
+            0 => (base, base + 1000, base),
+            1 => (base - 1000, base, base),
+            2 => (base, base, base),
+            _ => (base - 86_400 * (1 + rng.below(20) as i64), base + 86_400 * (1 + rng.below(300) as i64), base),
+        };
+        let spec = Spec {
+            kind, key, issuer_key: node.key, serial: 2 + rng.below(1 << 50), not_before: cnb, not_after: cna, overclaim,
+            claims: claims.clone(), aki: AkiChoice::Issuer, issuer_name: Some(node.rc.subject().clone()), subject_name: None,
+            router_key: if kind == Kind::Router { Some(rng.pick(&w.router_keys).clone()) } else { None },
+        };
+        let d = build(w, &spec);
+        let detail = json!({
+            "chain": chain_no, "level": level, "kind": format!("{:?}", kind), "policy": format!("{:?}", overclaim),
+            "claims": claims_json(&claims),
+            "issuer_effective": {"as": set_json(&node.eff[0]), "v4": set_json(&node.eff[1]), "v6": set_json(&node.eff[2])},
+            "window": [cnb, cna], "now": now,
+        });
+        let want = expected_eff(&node.eff, &claims, overclaim);
+        ctx.eval();
+        ctx.sig(&format!("{:?} depth={} {:?} claims={} expect={}", kind, node.depth + 1, overclaim, tags, if want.is_some() { "accept" } else { "reject" }));
+        let outcome = validate(ctx, w, kind, &d, Some(&node.rc), strict, now);
+        let rc = match (outcome, &want) {
+            (Some(Outcome::Accepted(rc)), Some(eff)) => {
+                ctx.obs("accepted", 1);
+                if over {
+                    ctx.obs("trimmed_overclaim_accepted", 1);
+                }
+                if let Some(rc) = &rc {
+                    check_resources(ctx, &format!("{:?}", kind).to_lowercase(), rc, eff, &node.eff, &detail);
+                }
+                rc
+            }
+            (Some(Outcome::Accepted(_)), None) => {
+                ctx.violation(&format!("C01:accepts:overclaim-refuse:{}", format!("{:?}", kind).to_lowercase()), "a no-overclaim certificate claiming resources outside its issuer was accepted", json!({"cert": hex(&d), "case": detail}));
+                None
+            }
+            (Some(Outcome::Rejected(e)), Some(_)) => {
+                ctx.violation(&format!("C01:rejects-conforming:{}", format!("{:?}", kind).to_lowercase()), "a correctly issued certificate was rejected", json!({"error": e, "cert": hex(&d), "case": detail}));
+                None
+            }
+            (Some(Outcome::Rejected(_)), None) => {
+                ctx.obs("rejected_overclaim", 1);
+                None
+            }
+            (None, _) => None,
+        };
+        if want.is_none() {
+            break;
+        }
+        // ---- single-point tampers of this valid (cert, issuer, time)
+        let tamper_budget = if ctx.stage == Stage::Valgrind { 2 } else { 1 };
+        if rng.chance(tamper_budget, 2) {
+            tampers(ctx, w, rng, &spec, &d, &node, strict, now, &detail);
+        }
+        match (kind, rc, want) {
+            (Kind::Ca, Some(rc), Some(eff)) => {
+                node = Node { der_bytes: d, rc, eff, key, depth: node.depth + 1, nb: cnb, na: cna };
+            }
+            _ => break,
+        }
+    }
+    let _ = (&node.der_bytes, node.nb, node.na);
+    ctx.drain_chain_hook(|| json!({"chain": chain_no}));
+}
+
+#[allow(clippy::too_many_arguments)]
+fn tampers(ctx: &mut Ctx, w: &World, rng: &mut Rng, spec: &Spec, d: &[u8], issuer: &Node, strict: bool, now: i64, detail: &Value) {
+    let kind = spec.kind;
+    let nkeys = w.pool.len();
+    // 1. time just outside either end (and exactly at the ends: must still be accepted)
+    expect_reject(ctx, w, "time-before", kind, d, Some(&issuer.rc), strict, spec.not_before - 1, detail);
+    expect_reject(ctx, w, "time-after", kind, d, Some(&issuer.rc), strict, spec.not_after + 1, detail);
+    for (edge, t) in [("at-not-before", spec.not_before), ("at-not-after", spec.not_after)] {
+        ctx.eval();
+        ctx.sig(&format!("edge {} {:?}", edge, kind));
+        if let Some(Outcome::Rejected(e)) = validate(ctx, w, kind, d, Some(&issuer.rc), strict, t) {
+            ctx.violation(&format!("C01:rejects-conforming:{}", edge), "a certificate was rejected at an instant inside its validity window (end points are inclusive)", json!({"error": e, "cert": hex(d), "now": t, "case": detail}));
+        }
+    }
+    // 2. AKI missing / different, correctly re-signed by the issuer
+    let mut s = spec.clone();
+    s.aki = AkiChoice::None;
+    let x = build(w, &s);
+    expect_reject(ctx, w, "aki-missing", kind, &x, Some(&issuer.rc), strict, now, detail);
+    let mut s = spec.clone();
+    s.aki = AkiChoice::Other((issuer.key + 1 + rng.usize_below(nkeys - 1)) % nkeys);
+    let x = build(w, &s);
+    expect_reject(ctx, w, "aki-other", kind, &x, Some(&issuer.rc), strict, now, detail);
+    let mut s = spec.clone();
+    s.aki = AkiChoice::Flip(match rng.below(3) { 0 => 159, 1 => 0, _ => rng.usize_below(160) });
+    let x = build(w, &s);
+    expect_reject(ctx, w, "aki-one-bit-off", kind, &x, Some(&issuer.rc), strict, now, detail);
+    // 3. claims to be issued by the issuer (AKI, issuer name) but is signed by another key
+    let mut s = spec.clone();
+    s.issuer_key = (issuer.key + 1 + rng.usize_below(nkeys - 1)) % nkeys;
+    s.aki = AkiChoice::Other(issuer.key);
+    let x = build(w, &s);
+    expect_reject(ctx, w, "signed-by-other-key", kind, &x, Some(&issuer.rc), strict, now, detail);
+    // 4. SKI patched inside the TBS and correctly re-signed (only the SKI check can object)
+    if let Some(root) = der::parse(d) {
+        let tbs = root.child(0).map(|n| n.whole(d).to_vec()).unwrap_or_default();
+        let ski = if kind == Kind::Router { spec.router_key.as_ref().map(|k| k.key_identifier()) } else { Some(w.pool.info(spec.key).key_identifier()) };
+        if let Some(ski) = ski {
+            let needle = ski.as_slice();
+            // the SKI extension value: OCTET STRING(20) right after its own OCTET STRING wrapper
+            let positions: Vec<usize> = (0..tbs.len().saturating_sub(22)).filter(|i| tbs[*i] == 0x04 && tbs[i + 1] == 0x14 && &tbs[i + 2..i + 22] == needle).collect();
+            if positions.len() == 1 {
+                let mut t2 = tbs.clone();
+                let bit = rng.below(160) as usize;
+                t2[positions[0] + 2 + bit / 8] ^= 1 << (bit % 8);
+                if let Some(x) = resign(w.pool, d, &t2, issuer.key) {
+                    expect_reject(ctx, w, "ski-not-key-hash", kind, &x, Some(&issuer.rc), strict, now, detail);
+                }
+            } else {
+                ctx.obs("ski_patch_position_ambiguous", 1);
+            }
+        }
+        // 5. bit flips in the signed bytes and in the signature value
+        let sig = root.child(2).cloned();
+        let tbs_node = root.child(0).cloned();
+        if let (Some(sig), Some(tbs_node)) = (sig, tbs_node) {
+            let exhaustive = ctx.tier == Tier::Thorough && ctx.stage == Stage::Native && rng.chance(1, 150);
+            let ranges = [(tbs_node.start, tbs_node.end, "tbs"), (sig.content_start + 1, sig.content_end, "signature")];
+            for (lo, hi, what) in ranges {
+                let nbits = (hi - lo) * 8;
+                let flips: Vec<usize> = if exhaustive { (0..nbits).collect() } else { (0..6).map(|_| rng.usize_below(nbits)).collect() };
+                if exhaustive {
+                    ctx.obs("exhaustive_flip_certs", 1);
+                }
+                for bit in flips {
+                    let mut x = d.to_vec();
+                    x[lo + bit / 8] ^= 1 << (bit % 8);
+                    ctx.eval();
+                    ctx.obs(&format!("bitflip_{}", what), 1);
+                    if let Some(Outcome::Accepted(_)) = validate(ctx, w, kind, &x, Some(&issuer.rc), strict, now) {
+                        ctx.violation(
+                            &format!("C01:accepts:bitflip-{}:{}", what, format!("{:?}", kind).to_lowercase()),
+                            "a certificate with one flipped bit in its signed bytes or signature was accepted",
+                            json!({"bit": bit, "region": what, "cert": hex(&x), "now": now, "case": detail}),
+                        );
+                    }
+                }
+                ctx.sig(&format!("bitflip {} {:?}", what, kind));
+            }
+        }
+    }
+    // 6. validated under a different issuer: same subject name, different key
+    let other_key = (issuer.key + 1 + rng.usize_below(nkeys - 1)) % nkeys;
+    let imp = Spec {
+        kind: Kind::Ta, key: other_key, issuer_key: other_key, serial: 77, not_before: issuer.nb.min(now) - 10, not_after: issuer.na.max(now) + 10,
+        overclaim: Overclaim::Refuse,
+        claims: [Claim::Blocks(IntervalSet::from_ranges(&[(0, Flavour::As.max())])), Claim::Blocks(IntervalSet::from_ranges(&[(0, Flavour::V4.max())])), Claim::Blocks(IntervalSet::from_ranges(&[(0, Flavour::V6.max())]))],
+        aki: AkiChoice::Issuer, issuer_name: Some(issuer.rc.subject().clone()), subject_name: Some(issuer.rc.subject().clone()), router_key: None,
+    };
+    let imp_der = build(w, &imp);
+    if let Some(Outcome::Accepted(Some(imp_rc))) = validate(ctx, w, Kind::Ta, &imp_der, None, strict, now) {
+        expect_reject(ctx, w, "other-issuer-same-name", kind, d, Some(&imp_rc), strict, now, detail);
+    } else {
+        ctx.obs("impostor_ta_not_accepted", 1);
+    }
+}
 
 pub fn run(ctx: &mut Ctx) {
-    ctx.notes.push("C01: monitor not built yet".into());
+    if ctx.no_ffi() {
+        ctx.notes.push("C01 needs signatures (aws-lc, FFI): not run under Miri".into());
+        return;
+    }
+    let pool = PoolSigner::new(6);
+    let w = World {
+        pool: &pool,
+        tal: TalInfo::from_name("verif".into()).into_arc(),
+        uri: uri::Rsync::from_str("rsync://example.com/m/p").unwrap(),
+        router_keys: (0..2).map(|_| PublicKey::decode(crate::keys::p256_spki().as_slice()).unwrap()).collect(),
+    };
+    let chains = ctx.stage_budget((20_000, 600_000), 3_000, 0, 24);
+    let mut rng = ctx.rng("chains");
+    for i in 0..chains {
+        run_chain(ctx, &w, &mut rng, i);
+    }
+    ctx.obs("signatures_made", pool.signatures.get());
+    ctx.sample("chain", || json!({"note": "see signature_examples for the (kind, depth, policy, claims, expectation) classes explored"}));
 }
